@@ -208,6 +208,13 @@ def _real_cases(tier, rng):
                 o["real"] = True
                 o["ctx"] = ctx
                 cases.append({"ops": [o], "origin": "extra"})
+    # a timed wait that follows a hooked recv which had to wait for its data (coroutine callers):
+    # the recv's unused wait slice must not cut the sleep short
+    for ns in ([17 * 10**6, 30 * 10**6] if tier == "quick" else [12 * 10**6, 17 * 10**6, 30 * 10**6, 50 * 10**6]):
+        for o in ({"op": "nanosleep", "sec": "0", "nsec": str(ns)}, {"op": "usleep", "usec": ns // 1000},
+                  {"op": "poll", "ms": str(ns // 10**6)}):
+            o.update({"real": True, "ctx": "coroutine", "after_recv": True})
+            cases.append({"ops": [o], "origin": "extra"})
     return cases
 
 
